@@ -35,7 +35,7 @@ TRUSTED = [
 ]
 ASSUMPTIONS = ['F1d: code points below U+0010 in path segments or query text are percent-encoded with one hex digit (F1 of C13)', 'F26d: query pairs with ASCII control characters U+0010-U+001F, U+007F are refused by the parser (F26 of C13)', 'F23: chunked framing on HTTP/1.0 (recorded, C05)', 'HTTP/1.1 requests carry a Host (explicit field or absolute target): without it the server answers 400 by design']
 RULE = ('messages built through the public API from valid components: method tokens (all of METHOD_RE\'s alphabet, 1-20 octets), 0-4 path segments and 0-3 query pairs over arbitrary Unicode (ASCII, Latin-1, BMP, astral, "/", "%", "+", "&", "=", spaces), statuses 100-599 with default or own reason phrase, versions 1.0/1.1, '
-	'1-4 header fields with Latin-1 values (no CR/LF, no outer white space), bodies from bytes/text/list/generator/BytesIO/file incl. empty and multi-block, Content-Length or chunked, responses also with gzip/deflate; composed, then parsed by the opposite state machine in one call and in fragments; '
+	'1-4 header fields with Latin-1 values (no CR/LF, no outer white space), bodies from bytes/text/list/generator/BytesIO/file incl. empty and multi-block, Content-Length or chunked (asked for through ComposedMessage.chunked, the Transfer-Encoding field or the Body flag), responses also with gzip/deflate; composed, then parsed by the opposite state machine in one call and in fragments; '
 	'non-trivial = one message delivered and equal; distinct by (kind, framing, coding, source, sizes)')
 
 METHOD_CHARS = 'ABCDEFGHIJKLMNOPQRSTUVWXYZabcdefghijklmnopqrstuvwxyz0123456789-_.$'
@@ -96,7 +96,8 @@ def gen_case(rng):
 		pieces = (data,) if source != 'none' else ()
 	if kind == 'request' and method == 'TRACE':
 		source, pieces = 'none', ()        # the server refuses a TRACE request with a body by design
-	chunked = rng.choice((None, None, True)) if version == (1, 1) else None
+	# chunked framing asked for through ComposedMessage.chunked (True), through the header API ('field'), or only on the Body object ('body': prepare() settles it)
+	chunked = rng.choice((None, None, True, True, 'field', 'body')) if version == (1, 1) else None
 	coding = rng.choice((None, None, 'gzip', 'deflate')) if kind == 'response' and version == (1, 1) else None
 	return ('m', kind, method, segs, query, status, reason, version, tuple(fields), source, pieces, chunked, coding, rng.randrange(10 ** 6))
 
@@ -143,7 +144,11 @@ def build(case):
 		m.body = src
 	if coding:
 		m.headers['Content-Encoding'] = coding
-	if chunked:
+	if chunked == 'field':
+		m.headers['Transfer-Encoding'] = 'chunked'
+	elif chunked == 'body':
+		m.body.chunked = True
+	elif chunked:
 		comp.chunked = True
 	return m, comp, req, keep
 
